@@ -31,6 +31,8 @@ CONSTANTS Starts,        \* start instances (one caller process each)
           JunkBudget,    \* garbage / unknown-id datagrams
           CloseConn,     \* FALSE = WithNoConnClose
           HasFallback,   \* WithHandler set
+          OneAtATime,    \* TRUE: a Collect / Close that would emit events for several ids at once is not taken
+                         \* (the real agent iterates a Go map: their order cannot be replayed)
           SafePool,      \* TRUE: a retransmission write does not fail while another goroutine holds the same pooled
                          \* object (excludes the double put of K5, see DESIGN.md)
           Strict,        \* TRUE: the reader does not process a response while another goroutine is between the
@@ -334,6 +336,7 @@ CollectorRun ==
   /\ IF aclosed THEN UNCHANGED << at, pc, loc >>
      ELSE LET dead == { i \in Ids : at[i] # None /\ at[i] < clock } IN
           /\ dead # {}
+          /\ OneAtATime => Cardinality(dead) = 1
           /\ at' = [i \in Ids |-> IF i \in dead THEN None ELSE at[i]]
           /\ \E q \in Perms(dead) :
                /\ Goto(CL, "CB_enter")
@@ -363,6 +366,7 @@ CloseAgent ==
      IF aclosed THEN AfterAgentClose /\ UNCHANGED << alock, aclosed, loc, at >>
      ELSE IF reg = {} THEN /\ aclosed' = TRUE /\ AfterAgentClose /\ UNCHANGED << alock, loc, at >>
      ELSE /\ alock' = X
+          /\ OneAtATime => Cardinality(reg) = 1
           /\ \E q \in Perms(reg) :
                /\ Goto(X, "CB_enter")
                /\ SetLoc(X, [NoLoc EXCEPT !.ev = Ev("closed", q[1]), !.todo = Tail(q), !.rpc = "X"])
